@@ -51,6 +51,7 @@ def main():
     ap.add_argument("--replay")
     ap.add_argument("--json", action="store_true")
     ap.add_argument("--workers", type=int, default=None)
+    ap.add_argument("--list", action="store_true", help="dev: list every disagreement group, no replay files")
     ap.add_argument("--only", default=None, help="comma list of driver ids (debugging; evidence marked partial)")
     a = ap.parse_args()
     if a.replay:
@@ -121,6 +122,12 @@ def main():
             print("INFO %s: %d further unmatched disagreements not kept in detail" % (d.id, m["overflow"]))
     reported = 0
     nondet = []
+    if a.list:
+        for sig, lst in sorted(groups.items()):
+            case, out = lst[0]
+            print("GROUP %s %s n=%d\n   ref=%s\n   impl=%s\n   tags=%s\n   case=%s" % (sig[0], sig[2], len(lst), out["ref"][:200], out["impl"][:200],
+                  json.dumps(out["tags"])[:300], json.dumps(case, sort_keys=True)[:400]))
+        groups = {}
     for sig, lst in sorted(groups.items()):
         if reported >= engine.MAX_REPORT:
             break
